@@ -107,7 +107,53 @@ def run_case(mod, case, known, trace=False):
     return res
 
 
+def isolated(fn, *args):
+    """Runs fn(*args) in a forked child of this (pristine) process and returns
+    its pickled result.  The calling process never executes library code
+    itself, so every chunk / reproduction / shrink candidate starts from the
+    same import-time state: process-global state a library change may
+    introduce cannot leak from one chunk into the next, and a failure is a
+    pure function of (chunk prefix, case)."""
+    import pickle
+
+    r, w = os.pipe()
+    child = os.fork()
+    if child == 0:
+        code = 0
+        try:
+            os.close(r)
+            try:
+                data = pickle.dumps(("ok", fn(*args)))
+            except BaseException:  # noqa: BLE001
+                data = pickle.dumps(("error", traceback.format_exc()))
+            with os.fdopen(w, "wb") as f:
+                f.write(data)
+        except BaseException:  # noqa: BLE001
+            code = 1
+        finally:
+            os._exit(code)
+    os.close(w)
+    chunks = []
+    with os.fdopen(r, "rb") as f:
+        while True:
+            b = f.read(1 << 20)
+            if not b:
+                break
+            chunks.append(b)
+    os.waitpid(child, 0)
+    if not chunks:
+        raise RuntimeError("isolated child died without a result")
+    kind, val = pickle.loads(b"".join(chunks))
+    if kind == "error":
+        raise RuntimeError("isolated child raised:\n" + val)
+    return val
+
+
 def _worker(args):
+    return isolated(_run_chunk, args)
+
+
+def _run_chunk(args):
     pid, tier, verif_seed, indices, known = args
     faulthandler.enable()
     mod = load_prop(pid)
@@ -140,7 +186,7 @@ def _worker(args):
         if res["nontrivial"]:
             out["nontrivial"].add(res["case_hash"])
         if res["status"] == "violation":
-            out["failures"].append((idx, seed, res["oracle"], res["message"], res["keys"]))
+            out["failures"].append((idx, seed, res["oracle"], res["message"], res["keys"], indices[0]))
         elif res["status"] == "foreign":
             out["foreign"][res["oracle"]] = out["foreign"].get(res["oracle"], 0) + 1
         if idx < 8:
@@ -227,9 +273,19 @@ def explore(pid, tier, verif_seed, n, workers, known, wall_cap):
 
 # ---------------------------------------------------------------- shrinking
 
-def _fails_same(mod, case, oracle, known):
+def _run_sequence(pid, cases, known):
+    """Executes cases in order in THIS process; returns the last result."""
+    mod = load_prop(pid)
+    res = None
+    for c in cases:
+        res = run_case(mod, c, known)
+    res["states"] = set()
+    return res
+
+
+def _fails_same(mod, case, oracle, known, prelude=()):
     try:
-        res = run_case(mod, case, known)
+        res = isolated(_run_sequence, mod.PROP, list(prelude) + [case], known)
     except Exception:
         return None
     if res["status"] == "violation" and res["oracle"] == oracle:
@@ -237,23 +293,47 @@ def _fails_same(mod, case, oracle, known):
     return None
 
 
-def shrink(mod, case, oracle, known, budget=20.0):
-    """ddmin over ops, then structural simplification, repeated to fixpoint."""
+def shrink(mod, case, oracle, known, budget=20.0, prelude=()):
+    """ddmin over ops, then structural simplification, repeated to fixpoint.
+    `prelude`: cases executed before `case` in the same process (needed only
+    when the violation depends on state leaking from earlier worlds)."""
     from .instances import shrink_candidates
 
     t0 = time.time()
     best = case
-    res = _fails_same(mod, best, oracle, known)
+    prelude = list(prelude)
+    res = _fails_same(mod, best, oracle, known, prelude)
     if res is None:
-        return case, None
+        return case, None, prelude
     best_res = res
 
     def left():
         return budget - (time.time() - t0)
 
+    # 0. minimise the prelude first (usually one earlier world suffices)
+    if prelude:
+        n = 2
+        while prelude and left() > budget * 0.4:
+            size = max(1, len(prelude) // n)
+            removed = False
+            for i in range(0, len(prelude), size):
+                cand = prelude[:i] + prelude[i + size:]
+                r = _fails_same(mod, best, oracle, known, cand)
+                if r is not None:
+                    prelude, best_res = cand, r
+                    n = max(n - 1, 2)
+                    removed = True
+                    break
+                if left() <= budget * 0.4:
+                    break
+            if not removed:
+                if size == 1:
+                    break
+                n = min(len(prelude), n * 2)
+
     def try_case(c):
         nonlocal best, best_res
-        r = _fails_same(mod, c, oracle, known)
+        r = _fails_same(mod, c, oracle, known, prelude)
         if r is not None:
             best, best_res = c, r
             return True
@@ -312,7 +392,7 @@ def shrink(mod, case, oracle, known, budget=20.0):
                     if try_case({**best, "cfg": {**best["cfg"], "instance": spec}}):
                         progress = again = True
                         break
-    return best, best_res
+    return best, best_res, prelude
 
 
 def _simpler(mod, case):
@@ -341,7 +421,7 @@ def _simpler(mod, case):
         yield from mod.simplify(case)
 
 
-def write_replay(pid, tier, case, res, original_ops):
+def write_replay(pid, tier, case, res, original_ops, prelude=()):
     d = os.path.join(VERIF, "replays", pid)
     os.makedirs(d, exist_ok=True)
     path = os.path.join(d, f"{pid}-{case.get('seed', 0)}-{res['oracle']}.json")
@@ -351,6 +431,9 @@ def write_replay(pid, tier, case, res, original_ops):
         "original_ops": original_ops,
         "minimised_ops": len(case["ops"]) if isinstance(case.get("ops"), list) else None,
         "digest": res["digest"],
+        "prelude": list(prelude),
+        "prelude_note": "cases executed, in order, in the same process before `case`; non-empty only when the violation depends on state "
+                        "that leaks from earlier worlds (process-global state)" if prelude else "",
         "case": case,
     }
     with open(path, "w") as f:
@@ -364,6 +447,8 @@ def replay_file(path, trace=False):
     with open(path) as f:
         doc = json.load(f)
     mod = load_prop(doc["property"])
+    for c in doc.get("prelude") or []:
+        run_case(mod, c, load_known())
     res = run_case(mod, doc["case"], load_known(), trace=trace)
     if res["status"] == "violation" and res["oracle"] == doc["oracle"]:
         return True, f"{res['oracle']}: {res['message']}", doc, res
@@ -394,42 +479,54 @@ def check(pid, tier, verif_seed, n=None, workers=None, budget=None):
     harness_errors = []
     if total["error"]:
         harness_errors.append(total["error"])
-    # determinism recheck: first 8 seeds again, in this (different) process
-    redo = {}
+    # determinism recheck: first 8 seeds again, in another fresh child of this process
     if not total["error"]:
-        for idx in sorted(total["digests"]):
-            seed = run_seed(pid, tier, verif_seed, idx)
-            case = mod.generate(seed, tier)
-            case["seed"] = seed
-            case["index"] = idx
-            try:
-                redo[idx] = run_case(mod, case, known)["digest"]
-            except Exception:
-                harness_errors.append("determinism recheck raised:\n" + traceback.format_exc())
-                break
-        mism = [i for i in redo if redo[i] != total["digests"][i]]
-        if mism:
-            harness_errors.append(f"non-deterministic digests for indices {mism}")
+        def redo_digests():
+            out = {}
+            for idx in sorted(total["digests"]):
+                seed = run_seed(pid, tier, verif_seed, idx)
+                case = mod.generate(seed, tier)
+                case["seed"] = seed
+                case["index"] = idx
+                out[idx] = run_case(mod, case, known)["digest"]
+            return out
+        try:
+            redo = isolated(redo_digests)
+            mism = [i for i in redo if redo[i] != total["digests"][i]]
+            if mism:
+                harness_errors.append(f"non-deterministic digests for indices {mism}")
+        except Exception:
+            harness_errors.append("determinism recheck raised:\n" + traceback.format_exc())
     # violations
     violations = []
     by_oracle = {}
     for f in sorted(total["failures"]):
         by_oracle.setdefault(f[2], f)
-    for oracle, (idx, seed, _, msg, keys) in sorted(by_oracle.items(), key=lambda kv: kv[1][0])[:4]:
-        case = mod.generate(seed, tier)
-        case["seed"] = seed
-        case["index"] = idx
+
+    def make_case(idx):
+        seed = run_seed(pid, tier, verif_seed, idx)
+        c = mod.generate(seed, tier)
+        c["seed"] = seed
+        c["index"] = idx
+        return c
+
+    for oracle, (idx, seed, _, msg, keys, chunk_start) in sorted(by_oracle.items(), key=lambda kv: kv[1][0])[:4]:
+        case = make_case(idx)
         orig = len(case["ops"]) if isinstance(case.get("ops"), list) else None
-        small, res = shrink(mod, case, oracle, known)
+        small, res, prelude = shrink(mod, case, oracle, known)
+        if res is None and idx > chunk_start:
+            # not reproducible alone: does it depend on the worlds that ran before it in the same process?
+            prelude = [make_case(i) for i in range(chunk_start, idx)]
+            small, res, prelude = shrink(mod, case, oracle, known, budget=60.0, prelude=prelude)
         if res is None:
-            harness_errors.append(f"failure at index {idx} ({oracle}: {msg}) did not reproduce in the parent")
+            harness_errors.append(f"failure at index {idx} ({oracle}: {msg}) did not reproduce, neither alone nor after its chunk prefix")
             continue
-        path = write_replay(pid, tier, small, res, orig)
+        path = write_replay(pid, tier, small, res, orig, prelude)
         ok, out = replay_in_fresh_process(path)
         if not ok:
             harness_errors.append(f"replay of {path} did not reproduce in a fresh process:\n{out}")
             continue
-        violations.append((oracle, res["message"], path))
+        violations.append((oracle, res["message"] + (f" [after {len(prelude)} earlier world(s) in the same process]" if prelude else ""), path))
     for k in known:
         hits = total["known_hits"].get(k["id"], 0)
         print(f"KNOWN-FINDING: property={pid} {k['what']} [id={k['id']} hits_this_run={hits}]")
